@@ -135,12 +135,18 @@ func c14Cases() []c14Case {
 	for _, w := range wrappers() {
 		out = append(out, c14Case{Desc: "errors.New via " + w.Name, Err: w.F(errors.New("plain failure")), Kind: "plain"})
 	}
+	out = append(out, c14Case{Desc: "*Error{7,\"after\"} (the client must still be usable)", Err: &jrpc2.Error{Code: 7, Message: "after"}, Kind: "error"})
+	defer func() {}()
 	for _, v := range []struct {
 		n string
 		v any
 	}{{"chan", make(chan int)}, {"func", func() {}}, {"NaN", math.NaN()}, {"+Inf", math.Inf(1)}, {"Marshaler error", badMarshal{}},
-		{"map with func", map[string]any{"f": func() {}}}, {"nested NaN", []any{1, []float64{math.NaN()}}}} {
+		{"map with func", map[string]any{"f": func() {}}}, {"nested NaN", []any{1, []float64{math.NaN()}}},
+		{"truncated RawMessage", json.RawMessage(`{"truncated":`)}, {"non-JSON RawMessage", json.RawMessage(`not json`)},
+		{"RawMessage with trailing data", json.RawMessage(`{} trailing`)}, {"unbalanced RawMessage", json.RawMessage(`[1,2`)},
+		{"nested bad RawMessage", map[string]any{"r": json.RawMessage(`{"x":`)}}} {
 		out = append(out, c14Case{Desc: "unmarshalable result " + v.n, Result: v.v, IsValue: true})
+		out = append(out, c14Case{Desc: "*Error{8,\"after " + v.n + "\"} (the client must still be usable)", Err: &jrpc2.Error{Code: 8, Message: "after " + v.n}, Kind: "error"})
 	}
 	return out
 }
